@@ -55,8 +55,27 @@ func checkErrorTPL(assign string, err string) string {
 	return "if err := " + assign + "; err != nil {\n goto " + err + "\n}\n"
 }
 
-// IsBaseType determines whether the given type is a base type.
+// ZeroWriter generates the code that writes the zero value of t. The key and value types of a
+// container are taken from t itself; for a type written through a typedef they are not set
+// there: use ZeroWriterCtx.
 func ZeroWriter(t *parser.Type, oprot string, err string) string {
+	return zeroWriter(t, t.GetKeyType(), t.GetValueType(), oprot, err)
+}
+
+// ZeroWriterCtx is ZeroWriter for the type of a read-write context; the key and value types
+// are those the context resolved (typedefs looked through).
+func ZeroWriterCtx(c *ReadWriteContext, oprot string, err string) string {
+	var kt, vt *parser.Type
+	if c.KeyCtx != nil {
+		kt = c.KeyCtx.Type
+	}
+	if c.ValCtx != nil {
+		vt = c.ValCtx.Type
+	}
+	return zeroWriter(c.Type, kt, vt, oprot, err)
+}
+
+func zeroWriter(t, kt, vt *parser.Type, oprot string, err string) string {
 	switch t.GetCategory() {
 	case parser.Category_Bool:
 		return checkErrorTPL(oprot+".WriteBool(false)", err)
@@ -75,13 +94,13 @@ func ZeroWriter(t *parser.Type, oprot string, err string) string {
 	case parser.Category_Binary:
 		return checkErrorTPL(oprot+".WriteBinary([]byte{})", err)
 	case parser.Category_Map:
-		return checkErrorTPL(oprot+".WriteMapBegin(thrift."+GetTypeIDConstant(t.GetKeyType())+
-			",thrift."+GetTypeIDConstant(t.GetValueType())+",0)", err) + checkErrorTPL(oprot+".WriteMapEnd()", err)
+		return checkErrorTPL(oprot+".WriteMapBegin(thrift."+GetTypeIDConstant(kt)+
+			",thrift."+GetTypeIDConstant(vt)+",0)", err) + checkErrorTPL(oprot+".WriteMapEnd()", err)
 	case parser.Category_List:
-		return checkErrorTPL(oprot+".WriteListBegin(thrift."+GetTypeIDConstant(t.GetValueType())+
+		return checkErrorTPL(oprot+".WriteListBegin(thrift."+GetTypeIDConstant(vt)+
 			",0)", err) + checkErrorTPL(oprot+".WriteListEnd()", err)
 	case parser.Category_Set:
-		return checkErrorTPL(oprot+".WriteSetBegin(thrift."+GetTypeIDConstant(t.GetValueType())+
+		return checkErrorTPL(oprot+".WriteSetBegin(thrift."+GetTypeIDConstant(vt)+
 			",0)", err) + checkErrorTPL(oprot+".WriteSetEnd()", err)
 	case parser.Category_Struct, parser.Category_Union, parser.Category_Exception:
 		return checkErrorTPL(oprot+".WriteStructBegin(\"\")", err) + checkErrorTPL(oprot+".WriteFieldStop()", err) +
